@@ -1,7 +1,7 @@
 """C04 — negation and aggregation see the complete relation, each tuple once."""
 from . import core, eng, gen, engcheck
 
-THEOREMS = []
+THEOREMS = ["agg_view_each_once", "run_agg_eq_model", "agg_sees_final", "run_agg_rows_set", "second_run_duplicates_agg_view", "run_agg_from_eq_model"]
 TRUSTED = ["Lean 4.33.0 kernel", "axioms: propext, Classical.choice, Quot.sound only (audited per theorem)",
            "statement: Props/C04.lean", "model Model/Engine.lean (aggTuples: the aggregated relation's stored index entries, full index = distinct tuples, "
            "Vec index = one entry per insertion) tied by compiled stratified programs with count/sum/min/max/not at stratum depth 1-3",
@@ -20,16 +20,39 @@ def build(rng, tier):
             inp = gen.nodup_input(rng.fork(f"{pid}i{j}"), p)
             inst = f"{pid}_{j}"
             cases.append(engcheck.Case(pid, inst, engcheck.std_history(inst, pid, inp), {"inp": inp, "kind": "agg"}))
+            if j % 4 == 3:
+                # known-finding classes: duplicate rows in the input (F15) and a second run() (F2)
+                r2 = rng.fork(f"{pid}d{j}")
+                dup = {r: list(rows) + ([rows[0]] if rows and r2.chance(1, 2) else []) for r, rows in inp.items()}
+                inst2 = f"{pid}_{j}d"
+                cases.append(engcheck.Case(pid, inst2, engcheck.std_history(inst2, pid, dup), {"inp": dup, "kind": "dup-input", "class": "F15"}))
+                inst3 = f"{pid}_{j}r"
+                cases.append(engcheck.Case(pid, inst3, engcheck.std_history(inst3, pid, inp, [f"eng run {inst3}", f"eng dump {inst3}"]), {"inp": inp, "kind": "rerun", "class": "F2"}))
     return progs, mods, cases
+
+
+def agg_rels(p):
+    return {it[4] for ru in p["rules"] for it in ru["body"] if it[0] == "agg"}
 
 
 def oracle(c, p, out):
     return engcheck.check_sets(p, out[-1], engcheck.spec_sets(p, c.meta["inp"]))
 
 
+def known(c, p, impl, model):
+    """a failure is attributed to a listed finding only inside its class AND when the bug-faithful model predicts exactly this output"""
+    cl = c.meta.get("class")
+    if model is None or impl != model: return None
+    if cl == "F15" and any(len(c.meta["inp"].get(r, [])) != len(set(c.meta["inp"].get(r, []))) for r in range(len(p["rels"]))):
+        return ("F15", "count/sum aggregate over a relation whose input vector repeats a row counts the row per occurrence (statement: each distinct tuple once)")
+    if cl == "F2":
+        return ("F2", "a second run() re-inserts every row into the Vec-backed indices; aggregates over them (count/sum) see each tuple twice")
+    return None
+
+
 def check(tier, replay=None):
     return engcheck.run_property("C04", tier, modules=["AscentVerif.Props.C04"], theorems=THEOREMS, trusted=TRUSTED, group="c04",
-                                 build=build, oracle=oracle, what="compiled stratified programs with aggregation / negation",
+                                 build=build, oracle=oracle, known=known, what="compiled stratified programs with aggregation / negation",
                                  rule="generated relational cores plus aggregation rules (count, sum, min, max, not) at stratum depth 1-3, aggregated relation's "
                                       "columns bound by key variables / constants, wildcarded or aggregated in every mix; duplicate-free inputs; compared with "
                                       "the model and the stratified naive oracle")
